@@ -36,14 +36,18 @@ CLAIMED = {
             "from an arbitrary state satisfying a stated inductive invariant (CrossHair/z3); "
             "liveness decided as a state predicate",
             "cur/max/processed/unacknowledged are solver variables constrained only by the "
-            "inductive invariant (re-proved by every step); each step (DATA, acknowledge, DATA on "
-            "closed/reset streams, settings ACK) is exhausted; 'U == 0 and max > 0 implies cur > "
+            "inductive invariant (re-proved by every step), in two worlds: acknowledge-only "
+            "applications and applications that also increment windows manually; each step (DATA, "
+            "acknowledge, manual increment, DATA on closed/reset streams, settings ACK incl. a "
+            "reserved stream) is exhausted; 'U == 0 and max > 0 implies cur > "
             "0' replaces the unbounded-history liveness quantifier.", "7/C05"),
     'C26': ("symbolic execution of ping() and _receive_ping_frame over 1-3 PING frames with "
-            "symbolic ACK flags and identity-tracked payloads (CrossHair/z3)",
-            "ACK flags, payload length and the mix with other frames are solver variables / "
-            "enumerated shards; the answer list is read from the output buffer in buffer order; "
-            "payload identity (the very object passed through) stands for 'identical 8 bytes'.",
+            "symbolic ACK flags and solver-chosen (equal or different) payloads, and of ping() "
+            "after solver-chosen PING history (CrossHair/z3)",
+            "ACK flags, which PINGs repeat a payload, ping() payload length, the history before "
+            "ping() and the mix with other frames are solver variables / enumerated shards; the "
+            "answer list is read from the output buffer in buffer order (identical frames map to "
+            "identical bytes in the serialisation model).",
             "7/C26"),
     'C23': ("symbolic execution of prioritize / send_headers(priority_*) / _receive_priority_frame "
             "with weight, dependency, exclusive flag and target stream id as solver variables; "
